@@ -62,7 +62,7 @@ let run_val (id : string) (fields : t list) : string =
              match M.spec_valid (re_match rx) fuel_big env (M.den i) with
              | Some true -> "V" | Some false -> "I" | None -> "F") insts in
            Printf.sprintf "%s unm=ok res=ok calls=%s v=%s spec_v=%s%s" id
-             (String.concat "," (List.map ints_of_str calls)) (String.concat "" vs) (String.concat "" sp)
+             (String.concat "," (List.sort compare (List.map ints_of_str calls))) (String.concat "" vs) (String.concat "" sp)
              (if rx.miss > 0 then Printf.sprintf " rxmiss=%d" rx.miss else "")
        | r -> Printf.sprintf "%s unm=ok res=%s" id (res_tag r))
   | r -> Printf.sprintf "%s unm=%s" id (res_tag r)
